@@ -38,6 +38,7 @@ def subTok : Sub → String
   | .acqStart => "AS"
   | .acqStop => "AT"
   | .paramRead => "PR"
+  | .gateSet v => s!"G{v}"
   | .loopStart => "LS"
   | .loopStop => "LT"
 
@@ -53,7 +54,7 @@ def showChan : Option (Nat × Nat) → String
   | some (f, k) => s!"H{f}.{k}"
 
 def showDev (d : Dev) : String :=
-  s!"R{b d.loopFlag}N{d.loops}E{b d.enabled}L{d.lock}A{b d.acquiring}C{b d.ctrlOpen}S{b d.strmOpen}X{b d.ctxt.isSome}K{b d.cache.lock}{b d.cache.start}{b d.cache.stop}{b d.cache.gain}{showChan d.chan}"
+  s!"R{b d.loopFlag}N{d.loops}E{b d.enabled}L{d.lock}A{b d.acquiring}C{b d.ctrlOpen}S{b d.strmOpen}X{b d.ctxt.isSome}K{b d.cache.lock}{b d.cache.start}{b d.cache.stop}{b d.cache.gain}{b d.cache.gate}G{d.gate}{showChan d.chan}"
 
 /-- a request step: a call of the camera, or state surgery through the public API -/
 inductive Step where
@@ -70,6 +71,7 @@ def stepOf (s : String) : Option Step :=
   else if s == "preload" then some .preload
   else if s == "unload" then some .unload
   else if s.startsWith "start" then (s.drop 5).toNat?.map (fun c => .call (.start c))
+  else if s.startsWith "gate" then (s.drop 4).toNat?.map (fun v => .call (.gate v))
   else none
 
 /-- one step of a request -/
